@@ -20,7 +20,7 @@ class JobRec:
                  "context_hash", "handoffs", "consumed", "released", "outcome", "finalized",
                  "was_cached", "call_hash", "created_seq", "settled_seq", "limits", "options",
                  "exec_count", "prov", "cache_scope", "children", "status", "execution_id",
-                 "parent_key")
+                 "parent_key", "pre_call_hash", "main_resolved")
 
     def __init__(self, id: str):
         self.id = id
@@ -49,6 +49,8 @@ class JobRec:
         self.status = None
         self.execution_id = None
         self.parent_key = None
+        self.pre_call_hash = None
+        self.main_resolved = False
 
 
 class Recorder:
@@ -68,6 +70,7 @@ class Recorder:
         self.callbacks: dict[str, list[Callable]] = {}
         self.env_counter = 0
         self.cur_job: Optional[tuple] = None
+        self.collapsed: dict[str, str] = {}  # twin job id -> id of the job it collapsed into
 
     def rec(self, job) -> JobRec:
         r = self.jobs.get(job.id)
@@ -198,6 +201,31 @@ def recording(w: World, rec: Recorder):
             return wrapper
         return maker
 
+    def mk_collapse(orig):
+        def collapse(self, other_job):
+            rec.collapsed[self.id] = other_job.id
+            w.event("collapse", self.id[:8], other_job.id[:8])
+            return orig(self, other_job)
+        return collapse
+
+    def mk_resolve_main(orig):
+        def _resolve_job_main_thread(self, job, result):
+            r = rec.rec(job)
+            r.pre_call_hash = job.call_hash
+            r.main_resolved = True
+            return orig(self, job, result)
+        return _resolve_job_main_thread
+
+    def mk_eval_apply(orig):
+        def _evaluate_apply(self, expr, parent_job=None):
+            promise = orig(self, expr, parent_job=parent_job)
+            cbs = rec.callbacks.get("eval_apply")
+            if cbs:
+                for cb in cbs:
+                    cb(self, expr, parent_job, promise)
+            return promise
+        return _evaluate_apply
+
     def mk_report(kind):
         def maker(orig):
             def wrapper(self, job, *a, **k):
@@ -246,10 +274,13 @@ def recording(w: World, rec: Recorder):
         wrap(rs.Job, "__init__", mk_job_init)
         wrap(rs.Job, "resolve", mk_resolve)
         wrap(rs.Job, "reject", mk_reject)
+        wrap(rs.Job, "collapse", mk_collapse)
         wrap(rlocal.LocalExecutor, "_submit", mk_submit)
         wrap(rs.Scheduler, "_exec_job_main_thread", mk_exec_main)
         wrap(rs.Scheduler, "_done_job_main_thread", mk_main_thread("done"))
         wrap(rs.Scheduler, "_reject_job_main_thread", mk_main_thread("reject"))
+        wrap(rs.Scheduler, "_resolve_job_main_thread", mk_resolve_main)
+        wrap(rs.Scheduler, "_evaluate_apply", mk_eval_apply)
         wrap(rs.Scheduler, "done_job", mk_report("done"))
         wrap(rs.Scheduler, "reject_job", mk_report("reject"))
         wrap(rs.Scheduler, "_consume_resources", mk_consume)
